@@ -707,6 +707,35 @@ def check_C07(ctx):
                         bad.append('%s: ancestor over the long branch differs from the chained one' % (hy,))
                     elif x is not None and fl != (f1 or f2):
                         bad.append('%s: duplication flag over the long branch differs from the chained one' % (hy,))
+            if wf and L.case.consistent and not bad:
+                # "consequently gains, losses and duplicated sets over the long branch are determined by chaining":
+                # the event sets the comparison A-C reports against the ones chained from the up-maps of B-C and A-B
+                try:
+                    hm = impl_hmap(L, L.ham.compare_genomes_vertically(gs[a], gs[c]).map)
+                    chained = {}
+                    for hy in uac:
+                        y, f1 = ubc.get(hy, (None, False))
+                        x2, f2 = uab.get(y, (None, False)) if y is not None else (None, False)
+                        chained[hy] = (x2, bool(f1 or f2)) if x2 is not None else (None, False)
+                    want_gain = sorted(hy for hy, (x, _) in chained.items() if x is None)
+                    want_ret = sorted((x, hy) for hy, (x, fl) in chained.items() if x is not None and not fl)
+                    want_dup = {}
+                    for hy, (x, fl) in chained.items():
+                        if x is not None and fl:
+                            want_dup.setdefault(x, []).append(hy)
+                    want_dup = sorted((x, tuple(sorted(v))) for x, v in want_dup.items())
+                    reached = set(x for x, _ in chained.values() if x is not None)
+                    want_loss = sorted(L.dump.ref(x) for x in gs[a].genes if L.dump.ref(x) not in reached)
+                    if hm['gain'] != want_gain:
+                        bad.append('gained set over the long branch is not the one chained from its sub-branches')
+                    if hm['retained'] != want_ret:
+                        bad.append('retained pairs over the long branch are not the ones chained from its sub-branches')
+                    if hm['dup'] != want_dup:
+                        bad.append('duplicated sets over the long branch are not the ones chained from its sub-branches')
+                    if hm['loss'] != want_loss:
+                        bad.append('lost set over the long branch is not the one chained from its sub-branches')
+                except Exception as e:  # noqa
+                    bad.append('comparison raised %s' % type(e).__name__)
             if bad:
                 ctx.violation(bad[0], {'case': cj(L), 'triple': [a, b, c], 'failures': bad[:10]})
                 continue
@@ -1369,6 +1398,15 @@ def expect_keyerror(f, *a):
 
 
 def check_C15(ctx):
+    work15 = tempfile.mkdtemp(prefix='c15_', dir=os.path.join(core.VERIF, '.work') if os.path.isdir(os.path.join(core.VERIF, '.work')) else None)
+    try:
+        return check_C15_body(ctx, work15)
+    finally:
+        import shutil
+        shutil.rmtree(work15, ignore_errors=True)
+
+
+def check_C15_body(ctx, work15):
     Ls = loaded_stream(ctx, ctx.scale(250, 3000))
     lookup_jobs = []
     for L in Ls:
@@ -1566,6 +1604,34 @@ def check_C15(ctx):
                           % (r[0], rep[0]), payload, no_input=True)
         else:
             ctx.counts['taxonomy_layer_agree'] += 1
+        # the same tree supplied as PhyloXML (every name tag): accepted exactly when the Newick form is, and then with
+        # pairwise different names
+        if all(nd_.name for nd_ in t.nodes()) and ctx.rng.random() < 0.5:
+            pxf = os.path.join(work15, 'amb.phyloxml')
+            with open(pxf, 'w') as f_:
+                f_.write(phyloxml_text(t))
+            for tag in ('clade_name', 'taxonomy_scientific_name', 'taxonomy_code'):
+                ctx.counts['ambiguity_trees_phyloxml'] += 1
+                try:
+                    tx = pyham.taxonomy.Taxonomy(pxf, tree_format='phyloxml', use_internal_name=ui,
+                                                 phyloxml_leaf_name_tag=tag, phyloxml_internal_name_tag=tag)
+                    allnames = [n.name for n in tx.tree.traverse()]
+                    okp = True
+                except KeyError:
+                    okp = False
+                except Exception as e:  # noqa
+                    ctx.violation('ambiguous tree (PhyloXML, tag %s) rejected with %s instead of KeyError' % (tag, type(e).__name__),
+                                  dict(payload, tree_format='phyloxml', tag=tag))
+                    break
+                if okp and len(set(allnames)) != len(allnames):
+                    ctx.violation('taxonomy built from PhyloXML (tag %s) accepted although names repeat: a name lookup would pick '
+                                  'one of several genomes' % tag, dict(payload, tree_format='phyloxml', tag=tag))
+                    break
+                if okp != (r[0] == 'ok'):
+                    ctx.violation('the same species tree is %s as Newick and %s as PhyloXML (tag %s)'
+                                  % ('accepted' if r[0] == 'ok' else 'rejected', 'accepted' if okp else 'rejected', tag),
+                                  dict(payload, tree_format='phyloxml', tag=tag))
+                    break
 
 
 # ------------------------------------------------------------------ annotations (C19)
@@ -2038,8 +2104,25 @@ def check_C11(ctx):
         c = L.case
         ctx.counts['filtered_loads'] += 1
         ctx.dist['selectors=%s%s%s' % ('H' if hs else '-', 'E' if ge else '-', 'I' if gi else '-')] += 1
-        r = impl.load_impl(c, filter_object=make_filter(hs, ge, gi))
-        payload = {'case': case_json(c), 'filter': {'hogs': hs, 'ext': ge, 'int': gi}}
+        reuse = None
+        if ctx.rng.random() < 0.25 and (len(hs) + len(ge) + len(gi)) >= 1:
+            # one ParserFilter object used for a first load with part of the selectors, then widened and used again
+            # (also on another document first): the second load must select by the filter as it is now
+            k_ = ctx.rng.randint(0, len(hs))
+            fobj = make_filter(hs[:k_], [], [])
+            first = impl.load_impl(c, filter_object=fobj)
+            if hs[k_:]:
+                fobj.add_hogs_via_hogId(hs[k_:])
+            if ge:
+                fobj.add_hogs_via_GeneExtId(ge)
+            if gi:
+                fobj.add_hogs_via_GeneIntId(gi)
+            reuse = 'first load with hogs %s: %s' % (hs[:k_], first[0])
+            ctx.dist['filter_object_reused'] += 1
+            r = impl.load_impl(c, filter_object=fobj)
+        else:
+            r = impl.load_impl(c, filter_object=make_filter(hs, ge, gi))
+        payload = {'case': case_json(c), 'filter': {'hogs': hs, 'ext': ge, 'int': gi, 'reused_filter_object': reuse}}
         if r[0] != 'ok':
             ctx.violation('filtered load fails: %s' % r[1], payload)
             continue
